@@ -10,7 +10,8 @@ Tie
      proved in Props/C06.lean) must accept it (simple cycles of existing non-special bonds, GF(2)-independent,
      count = cyclomatic number) and its size multiset must equal that of the Lean reference minimum cycle basis
      (Horton candidates + greedy, self-certified by `checkSssr`), before and after random renumbering.
-The two heuristic gaps recorded in the property text are filtered out of the minimality clause (`recorded_gap`).
+The two heuristic gaps recorded in the property text are filtered out of the minimality clause and the polycyclic
+generalisation of the first one is a known finding (`gap_class`, `exempt`).
 """
 import collections
 import itertools
@@ -222,33 +223,118 @@ def blocks(adj):
     return out
 
 
-def recorded_gap(adj):
-    """None, or the name of the recorded heuristic gap the graph falls into (property text, `quantifier`):
-    a bicyclic core whose three bridges all have >= 3 bonds; a dense cage (7 atoms / 12 bonds and denser)."""
+def _dists(g, s):
+    d, q = {s: 0}, collections.deque([s])
+    while q:
+        x = q.popleft()
+        for y in g[x]:
+            if y not in d:
+                d[y] = d[x] + 1
+                q.append(y)
+    return d
+
+
+def disjoint_paths(g, s, t, want=3):
+    """number (capped at `want`) of internally vertex-disjoint s-t paths (Menger; unit-capacity max flow on the
+    vertex-split digraph: v_in=(v,0) -> v_out=(v,1), edge arcs u_out -> w_in)"""
+    flow = collections.defaultdict(int)
+
+    def residual(x, y):
+        (xv, xs), (yv, ys) = x, y
+        if xs == 0 and ys == 1 and xv == yv:        # internal arc, forward
+            return (want if xv in (s, t) else 1) - flow[(x, y)]
+        if xs == 1 and ys == 0 and xv != yv:        # edge arc, forward
+            return 1 - flow[(x, y)]
+        return flow[(y, x)]                         # reverse of one of the two
+
+    def nbrs(x):
+        v, side = x
+        if side == 0:
+            yield (v, 1)
+            for w in g[v]:
+                yield (w, 1)
+        else:
+            for w in g[v]:
+                yield (w, 0)
+            yield (v, 0)
+    total = 0
+    for _ in range(want):
+        src, dst = (s, 1), (t, 0)
+        par, q, found = {src: None}, collections.deque([src]), False
+        while q and not found:
+            x = q.popleft()
+            for y in nbrs(x):
+                if y not in par and residual(x, y) > 0:
+                    par[y] = x
+                    if y == dst:
+                        found = True
+                        break
+                    q.append(y)
+        if not found:
+            break
+        y = dst
+        while par[y] is not None:
+            x = par[y]
+            (xv, xs), (yv, ys) = x, y
+            if (xs == 0 and ys == 1 and xv == yv) or (xs == 1 and ys == 0 and xv != yv):
+                flow[(x, y)] += 1
+            else:
+                flow[(y, x)] -= 1
+            y = x
+        total += 1
+    return total
+
+
+def multi_bridge(g):
+    """two atoms at distance >= 3 joined by >= 3 internally disjoint bridges (every bridge then has >= 3 bonds)"""
+    hubs = [v for v, ms in g.items() if len(ms) >= 3]
+    for i, u in enumerate(hubs):
+        d = _dists(g, u)
+        for v in hubs[i + 1:]:
+            if d.get(v, 0) >= 3 and disjoint_paths(g, u, v) >= 3:
+                return u, v
+    return None
+
+
+def gap_class(adj):
+    """None, or the class of ring systems on which the PID heuristic is known not to deliver a minimum basis:
+      'recorded:theta'          property text: a bicyclic core whose three bridges all have >= 3 bonds
+      'recorded:dense-cage'     property text: dense cages (7 atoms / 12 bonds and denser): a block with >= 6 independent rings
+                                and average degree >= 3
+      'known:multi-bridge-core' known finding: a polycyclic (>= 3 rings) block in which two atoms at distance >= 3 are joined
+                                by >= 3 disjoint bridges — the same weakness beyond the recorded bicyclic case
+    The strongest class present wins (dense-cage > multi-bridge > theta)."""
+    found = set()
     for comp in blocks(adj):
         verts = {v for e in comp for v in e}
         mu = len(comp) - len(verts) + 1
-        if mu == 2:
-            deg = collections.Counter(v for e in comp for v in e)
-            hubs = [v for v, d in deg.items() if d == 3]
-            if len(hubs) == 2:
-                # three bridges between the hubs; lengths sum to |E|
-                g = collections.defaultdict(set)
-                for a, b in comp:
-                    g[a].add(b)
-                    g[b].add(a)
-                lens = []
-                for s in g[hubs[0]]:
-                    prev, cur, ln = hubs[0], s, 1
-                    while cur != hubs[1]:
-                        nxt = next(x for x in g[cur] if x != prev)
-                        prev, cur, ln = cur, nxt, ln + 1
-                    lens.append(ln)
-                if min(lens) >= 3:
-                    return 'theta-bridges>=3'
-        elif mu >= 6 or (len(comp) >= 12 and len(verts) <= 7):
-            return 'dense-cage'
+        if mu < 2:
+            continue
+        if mu >= 6 and 2 * len(comp) >= 3 * len(verts):
+            found.add('recorded:dense-cage')
+            continue
+        g = collections.defaultdict(set)
+        for a, b in comp:
+            g[a].add(b)
+            g[b].add(a)
+        if multi_bridge(g):
+            found.add('recorded:theta' if mu == 2 else 'known:multi-bridge-core')
+    for c in ('recorded:dense-cage', 'known:multi-bridge-core', 'recorded:theta'):
+        if c in found:
+            return c
     return None
+
+
+KNOWN_SIG = 'C06/not-minimum/multi-bridge-core'
+
+
+def exempt(gap, clause):
+    """is `clause` outside the claimed domain / a listed finding for a graph of class `gap`?"""
+    if gap is None:
+        return False
+    if clause in ('not-minimum', 'numbering-dependent'):
+        return True
+    return gap == 'recorded:dense-cage' and clause in ('basis-dependent', 'basis-count', 'sssr-raises')
 
 
 # ------------------------------------------------------------------------------------------------
@@ -330,86 +416,165 @@ def parse_resp(line):
     return dict(p.split('=', 1) for p in line.split('|'))
 
 
-class Batch:
-    """collects cases, runs them through the driver, compares"""
+def evaluate(cases, build_ok=True):
+    """Run the implementation and the Lean driver on `cases` = [(tag, wire ints)] and compare. Pure: returns a picklable
+    result dict so that it can run in worker processes."""
+    import hashlib
+    res = {'counts': [], 'dist': collections.Counter(), 'broken': [], 'suspects': [], 'samples': [], 'disagreements': 0,
+           'known': []}
 
-    def __init__(self, ctx):
-        self.ctx = ctx
-        self.items = []
-
-    def add(self, tag, ints, label=None):
-        """evaluate the implementation now, queue the driver request"""
-        ctx = self.ctx
+    def broke(kind, name, detail, ints):
+        res['disagreements'] += 1
+        res['broken'].append((kind, name, detail))
+        if len(res['suspects']) < 40:
+            res['suspects'].append(ints)
+    items = []
+    for tag, ints in cases:
         mol, _ = wire.ints_to_mol(ints)
         adj = ns_adj(mol)
         fields, rings, err = impl_fields(mol)
-        gap = None
         if err is not None:
-            gap = recorded_gap(adj)
-            ctx.dist('sssr-error:' + err + (':recorded-gap' if gap else ''))
+            gap = gap_class(adj)
+            res['dist']['sssr-error:' + err + (':' + gap if gap else '')] += 1
+            if err.startswith('crash') or not exempt(gap, 'sssr-raises'):
+                broke('relational', 'sssr-raises', f'{tag}: mol.sssr raised {err}; wire={ints}', ints)
+        items.append((tag, ints, fields, rings, err, adj))
+    if not build_ok or not items:
+        return res
+    lines = [case_line(ints, rings or []) for _, ints, _, rings, _, _ in items]
+    resp = core.run_driver('C06', lines)
+    if len(resp) != len(lines):
+        res['broken'].append(('correspondence', 'driver-lines', f'{len(resp)} responses for {len(lines)} requests'))
+        return res
+    for (tag, ints, fields, rings, err, adj), line, rl in zip(items, lines, resp):
+        r = parse_resp(rl)
+        mu = int(fields['rc']) if fields['rc'].lstrip('-').isdigit() else 0
+        res['counts'].append((hashlib.blake2b(line.encode(), digest_size=8).digest(), mu > 0))
+        d = res['dist']
+        d[tag] += 1
+        d[f'rings={min(mu, 9)}'] += 1
+        d[f'atoms={ints[0] // 10 * 10}+' if ints[0] >= 10 else f'atoms={ints[0]}'] += 1
+        if any(len(ms) != len(adj[n]) for n, ms in zip(adj, _nbr_counts(ints))):
+            d['with-coordinate-bonds'] += 1
+        if mu > 0 and len(res['samples']) < 3:
+            res['samples'].append({'request': line[:300], 'model': rl[:400], 'impl_sssr': [list(x) for x in (rings or [])][:6]})
+        if '_' in r:
+            broke('correspondence', 'driver-answer', f'{tag}: driver answered {rl!r} for {line[:300]}', ints)
+            continue
+        for k in K_FIELDS:
+            if k in fields and r.get(k) != fields[k]:   # ring views are absent when sssr raised
+                broke('correspondence', k, f'{tag}: model {k}={r.get(k)!r} impl {k}={fields[k]!r} wire={ints}', ints)
+        if err is not None:
+            continue
+        gap = None
+        if r.get('chk') != 'ok' or r.get('chkb') != '1':
+            gap = gap_class(adj)
+            clause = 'basis-' + ('count' if str(r.get('chk')).startswith('count') else r.get('chk'))
+            if exempt(gap, clause):
+                d[f'{clause}-in:{gap}'] += 1
+            else:
+                broke('relational', 'check_sssr', f'{tag}: checker verdict {r.get("chk")} on sssr={rings} wire={ints}', ints)
+            continue
+        sizes = ','.join(map(str, sorted(len(x) for x in rings)))
+        if r.get('ref') != sizes:
+            gap = gap_class(adj)
             if gap is None:
-                ctx.cov['disagreements_checked'] += 1
-                ctx.broke('relational', 'sssr-raises', f'{tag}: mol.sssr raised {err}; wire={ints}')
-                _state['suspects'].append(ints)
-            rings_sent = []
-        else:
-            rings_sent = rings
-        self.items.append((tag, ints, fields, rings, err, adj, label))
-        return rings
+                broke('relational', 'minimum-size-multiset',
+                      f'{tag}: sssr sizes {sizes} but reference minimum basis {r.get("ref")} wire={ints}', ints)
+            else:
+                d['not-minimum-in:' + gap] += 1
+                if gap.startswith('known:') and len(res['known']) < 3:
+                    res['known'].append((ints, sizes, r.get('ref')))
+    return res
 
-    def run(self):
-        ctx = self.ctx
-        if not self.items or not ctx.build_ok:
-            self.items = []
-            return
-        lines = [case_line(ints, rings or []) for _, ints, _, rings, _, _, _ in self.items]
-        resp = core.run_driver('C06', lines)
-        if len(resp) != len(lines):
-            ctx.broke('correspondence', 'driver-lines', f'{len(resp)} responses for {len(lines)} requests')
-            self.items = []
-            return
-        for (tag, ints, fields, rings, err, adj, label), line, rl in zip(self.items, lines, resp):
-            r = parse_resp(rl)
-            mu = int(fields['rc']) if fields['rc'].lstrip('-').isdigit() else 0
-            ctx.count(line, nontrivial=mu > 0)
-            ctx.dist(f'{tag}')
-            ctx.dist(f'rings={min(mu, 9)}')
-            ctx.dist(f'atoms={min(ints[0] // 10 * 10, 90)}+' if ints[0] >= 10 else f'atoms={ints[0]}')
-            if mu > 0:
-                ctx.sample({'request': line[:300], 'model': rl[:400], 'impl_sssr': [list(x) for x in (rings or [])][:6]})
-            if '_' in r:
-                ctx.cov['disagreements_checked'] += 1
-                ctx.broke('correspondence', 'driver-answer', f'{tag}: driver answered {rl!r} for {line[:300]}')
-                _state['suspects'].append(ints)
-                continue
-            for k in K_FIELDS:
-                if k not in fields:
-                    continue  # sssr raised: ring views not available
-                if r.get(k) != fields[k]:
-                    ctx.cov['disagreements_checked'] += 1
-                    ctx.broke('correspondence', k, f'{tag}: model {k}={r.get(k)!r} impl {k}={fields[k]!r} wire={ints}')
-                    _state['suspects'].append(ints)
-            if err is not None:
-                continue
-            if r.get('chk') != 'ok' or r.get('chkb') != '1':
-                ctx.cov['disagreements_checked'] += 1
-                ctx.broke('relational', 'check_sssr', f'{tag}: checker verdict {r.get("chk")} on sssr={rings} wire={ints}')
-                _state['suspects'].append(ints)
-                continue
-            sizes = ','.join(map(str, sorted(len(x) for x in rings)))
-            if r.get('ref') != sizes:
-                gap = recorded_gap(adj)
-                if gap:
-                    ctx.dist('nonminimal-in-recorded-gap:' + gap)
-                else:
-                    ctx.cov['disagreements_checked'] += 1
-                    ctx.broke('relational', 'minimum-size-multiset',
-                              f'{tag}: sssr sizes {sizes} but reference minimum basis {r.get("ref")} wire={ints}')
-                    _state['suspects'].append(ints)
-        self.items = []
+
+def _nbr_counts(ints):
+    """full neighbour lists per atom in wire order (to spot molecules that have order-8 bonds)"""
+    out, i = [], 1
+    for _ in range(ints[0]):
+        deg = ints[i + 7]
+        out.append(ints[i + 8:i + 8 + 3 * deg:3])
+        i += 8 + 3 * deg
+    return out
+
+
+def merge(ctx, res):
+    for h, nt in res['counts']:
+        ctx.cov['evaluations'] += 1
+        if nt:
+            ctx._distinct.add(h)
+    for k, v in res['dist'].items():
+        ctx.dist(k, v)
+    for sm in res['samples']:
+        ctx.sample(sm)
+    ctx.cov['disagreements_checked'] += res['disagreements']
+    for kind, name, detail in res['broken'][:50]:
+        ctx.broke(kind, name, detail)
+    _state['suspects'] += res['suspects']
+    for ints, sizes, ref in res['known']:
+        # confirmed on the real code by the Python oracle (never by the Lean model) before it is reported
+        fl = [x for x in property_failures(ints, check_numbering=False, apply_exemptions=False) if x[0] == 'not-minimum']
+        if fl:
+            ctx.fail(KNOWN_SIG, f'ring system with >= 3 long disjoint bridges: {fl[0][1]}', {'wire': ints, 'clause': 'not-minimum'})
+
+
+def labelled_graphs(n, lo, hi, max_mu):
+    """connected labelled graphs on 1..n, degree <= 4, cyclomatic number <= max_mu, for edge masks in [lo, hi)"""
+    pairs = list(itertools.combinations(range(1, n + 1), 2))
+    for mask in range(lo, hi):
+        k = bin(mask).count('1')
+        if k < n - 1 or k - n + 1 > max_mu:
+            continue
+        edges = [pairs[i] for i in range(len(pairs)) if mask >> i & 1]
+        deg = [0] * (n + 1)
+        adj = {v: [] for v in range(1, n + 1)}
+        for a, b in edges:
+            deg[a] += 1
+            deg[b] += 1
+            adj[a].append(b)
+            adj[b].append(a)
+        if max(deg) > 4:
+            continue
+        seen, st = {1}, [1]
+        while st:
+            for y in adj[st.pop()]:
+                if y not in seen:
+                    seen.add(y)
+                    st.append(y)
+        if len(seen) == n:
+            yield edges
+
+
+def _exhaustive_worker(args):
+    n, lo, hi, max_mu, build_ok = args
+    cases = [(f'exhaustive-labelled-{n}', graph_ints(n, e)) for e in labelled_graphs(n, lo, hi, max_mu)]
+    out = None
+    for i in range(0, len(cases), 5000):
+        r = evaluate(cases[i:i + 5000], build_ok)
+        if out is None:
+            out = r
+        else:
+            out['counts'] += r['counts']
+            out['dist'].update(r['dist'])
+            out['broken'] += r['broken'][:20]
+            out['suspects'] += r['suspects'][:10]
+            out['disagreements'] += r['disagreements']
+            out['known'] += r['known']
+    return out or evaluate([], build_ok)
 
 
 _state = {'suspects': []}
+
+
+def theta_edges(a, b, c):
+    edges, nxt = [], 3
+    for ln in (a, b, c):
+        prev = 1
+        for _ in range(ln - 1):
+            edges.append((prev, nxt))
+            prev, nxt = nxt, nxt + 1
+        edges.append((prev, 2))
+    return nxt - 1, edges
 
 
 def renumbered_ints(rng, ints):
@@ -465,48 +630,67 @@ def iso_classes(n, max_mu):
 
 
 def correspond(ctx):
+    import multiprocessing
+    import os
     from chython.algorithms import rings as R
     rng = ctx.rng
     ctx.cov['programs'] = len(PROGRAMS)
     _state['suspects'] = []
-    B = Batch(ctx)
+    pending = []
 
-    def flush(limit=4000):
-        if len(B.items) >= limit:
-            B.run()
+    def add(tag, ints):
+        pending.append((tag, ints))
+        if len(pending) >= 4000:
+            flush()
 
-    # 0. regression corpus: handmade ring systems incl. the classic hard cases
+    def flush():
+        if pending:
+            merge(ctx, evaluate(pending, ctx.build_ok))
+            del pending[:]
+
+    # 0. regression corpus: handmade ring systems incl. the classic hard cases, and the boundary of the recorded gaps
     hand = ['C1CC1', 'C1CCC1', 'C1CCCCC1', 'C1CC2CC1CC2', 'C12CC1C2', 'C1CC11CC1', 'c1ccc2ccccc2c1', 'C1CC2CCC1C2',
             'C12C3C4C1C5C2C3C45', 'C1C2CC3CC1CC(C2)C3', 'C1CC2CCC1CC2', 'c1ccc2c(c1)ccc1ccccc12', 'C1CCCCCCCCCCC1',
             'C1CC1C1CC1', 'S1SSSSSSS1', 'C1CC2(C1)CCC2', 'C1=CC2=CC=CC2=C1', 'CC.CC', '[Na+].[Cl-]', 'C', 'CCO',
-            'C1CC2CC2C1', 'C1C2CC1C2', 'C1CC2C1C1CCC21', 'C1CCC2(CC1)CCCCC2', 'C1C2C3C1C23']
-    for s in hand:
-        m = molgen.parse(s)
+            'C1CC2CC2C1', 'C1C2CC1C2', 'C1CC2C1C1CCC21', 'C1CCC2(CC1)CCCCC2', 'C1C2C3C1C23',
+            'c1cc2ccc3cccc4ccc(c1)c2c34', 'C1CC2CCC1CCC2', 'C1CCC2CCCC(C1)CCC2']
+    for smi in hand:
+        m = molgen.parse(smi)
         if m is not None:
             ints = wire.mol_to_ints(m)
-            B.add('handmade', ints)
-            B.add('handmade-renumbered', renumbered_ints(rng, ints))
+            add('handmade', ints)
+            add('handmade-renumbered', renumbered_ints(rng, ints))
+    for a, b, c in itertools.combinations_with_replacement(range(1, 7), 3):
+        if (a, b, c).count(1) > 1:
+            continue
+        n, edges = theta_edges(a, b, c)
+        ints = graph_ints(n, edges)
+        add('theta-graph', ints)
+        for _ in range(3 if ctx.quick else 20):
+            add('theta-graph-renumbered', renumbered_ints(rng, ints))
 
-    # 1. exhaustive labelled connected graphs (degree <= 4)
-    nmax = 6 if ctx.quick else 7
-    for n in range(1, nmax + 1):
-        for edges in molgen.small_graphs(n):
-            if len(edges) - n + 1 > 5:
-                continue
-            B.add(f'exhaustive-labelled-{n}', graph_ints(n, edges))
-            flush()
+    # 1. exhaustive labelled connected graphs (degree <= 4): all with <= 6 atoms; thorough: 7 atoms with <= 5 rings
+    for n in range(1, 7):
+        for edges in labelled_graphs(n, 0, 1 << (n * (n - 1) // 2), 99):
+            add(f'exhaustive-labelled-{n}', graph_ints(n, edges))
+    flush()
+    if not ctx.quick:
+        total = 1 << 21
+        step = total // 256
+        jobs = [(7, lo, min(lo + step, total), 5, ctx.build_ok) for lo in range(0, total, step)]
+        workers = max(1, min(12, (os.cpu_count() or 2) - 2))
+        with multiprocessing.get_context('fork').Pool(workers) as pool:
+            for res in pool.imap_unordered(_exhaustive_worker, jobs):
+                merge(ctx, res)
     ctx.exhaustive = True   # this stream enumerates its finite domain completely (see RULE for the other streams)
 
     # 2. isomorphism classes of 7 atoms (<= 5 rings) and 8 atoms (<= 3 rings) under random renumbering
     reps = 2 if ctx.quick else 12
     for n, mx in ((7, 5), (8, 3)):
-        if n == 7 and not ctx.quick:
-            continue   # thorough: covered by the labelled enumeration above
         for edges in iso_classes(n, mx):
             ints = graph_ints(n, edges)
             for _ in range(reps):
-                B.add(f'iso-class-{n}-renumbered', renumbered_ints(rng, ints))
-            flush()
+                add(f'iso-class-{n}-renumbered', renumbered_ints(rng, ints))
 
     # 3. ring assemblies with random coordinate bonds, each also renumbered
     for i in range(250 if ctx.quick else 3000):
@@ -517,10 +701,14 @@ def correspond(ctx):
         if rng.random() < 0.3:   # pendant chains and a second component
             edges = edges + [(rng.randint(1, n), n + 1), (n + 1, n + 2), (n + 3, n + 4)]
             n += 4
+        if rng.random() < 0.15:  # a coordinate bond that is a chord / an extra link
+            a, b = rng.sample(range(1, n + 1), 2)
+            if (a, b) not in edges and (b, a) not in edges:
+                edges = edges + [(a, b)]
+                special = special + [(a, b)]
         ints = graph_ints(n, edges, special)
-        B.add('ring-assembly', ints)
-        B.add('ring-assembly-renumbered', renumbered_ints(rng, ints))
-        flush()
+        add('ring-assembly', ints)
+        add('ring-assembly-renumbered', renumbered_ints(rng, ints))
 
     # 4. repository molecules
     mols = molgen.corpus(rng, 150 if ctx.quick else 4200) + molgen.handmade() + molgen.test_files()
@@ -530,11 +718,10 @@ def correspond(ctx):
         except Exception:
             continue
         tag = 'corpus' if name.startswith('corpus') else ('test-files' if '.sdf' in name else 'handmade')
-        B.add(tag, ints)
+        add(tag, ints)
         if rng.random() < (0.5 if ctx.quick else 1.0):
-            B.add(tag + '-renumbered', renumbered_ints(rng, ints))
-        flush()
-    B.run()
+            add(tag + '-renumbered', renumbered_ints(rng, ints))
+    flush()
 
     # 5. ring tuple helpers: exact functional models
     if ctx.build_ok:
@@ -545,22 +732,28 @@ def correspond(ctx):
                 return 'ok ' + fn(*a)
             except Exception:
                 return 'raise'
+        have = {k: getattr(R, k, None) for k in ('_canonic_ring', '_ring_adjacency', '_ring_scissors')}
+        for k, v in have.items():
+            if v is None:   # private helper gone: recorded, not an alarm (DESIGN §10)
+                ctx.notes.append(f'rings.{k} no longer exists: its private stream is skipped')
         for i in range(1500 if ctx.quick else 20000):
             ln = rng.choice([0, 1, 2, 3, 3, 4, 5, 6, 7, 8, 12])
             if rng.random() < 0.85:
                 ring = tuple(rng.sample(range(1, 30), ln))
             else:
                 ring = tuple(rng.randint(1, 6) for _ in range(ln))
-            reqs.append('canon ' + ' '.join(map(str, ring)))
-            exp.append(outcome(lambda r: canon_ring(R._canonic_ring(r)), ring))
-            reqs.append('radj ' + ' '.join(map(str, ring)))
-            exp.append(outcome(lambda r: ';'.join(f'{k}:' + ','.join(map(str, v)) for k, v in R._ring_adjacency(r).items()), ring))
-            if ln >= 2:
+            if have['_canonic_ring']:
+                reqs.append('canon ' + ' '.join(map(str, ring)))
+                exp.append(outcome(lambda r: canon_ring(R._canonic_ring(r)), ring))
+            if have['_ring_adjacency']:
+                reqs.append('radj ' + ' '.join(map(str, ring)))
+                exp.append(outcome(lambda r: ';'.join(f'{k}:' + ','.join(map(str, v)) for k, v in R._ring_adjacency(r).items()), ring))
+            if ln >= 2 and have['_ring_scissors']:
                 n, m = (rng.choice(ring), rng.choice(ring)) if rng.random() < 0.9 else (rng.randint(1, 30), rng.randint(1, 30))
                 if n != m:
                     reqs.append(f'scis {n} {m} ' + ' '.join(map(str, ring)))
                     exp.append(outcome(lambda r, a, b: canon_ring(R._ring_scissors(r, a, b)), ring, n, m))
-        got = core.run_driver('C06', reqs)
+        got = core.run_driver('C06', reqs) if reqs else []
         for q, e, g in zip(reqs, exp, got):
             ctx.count(q, nontrivial=len(q.split()) >= 4)
             ctx.dist(q.split()[0])
@@ -573,97 +766,101 @@ def correspond(ctx):
 # failing-input search and probe (property-level oracle on the real code; never consults the Lean model)
 # ------------------------------------------------------------------------------------------------
 
-def property_failures(ints, check_numbering=True, rng=None):
-    """All clauses of C06 evaluated on the real code for one wire-encoded molecule. Returns list of (clause, detail)."""
+def property_failures(ints, check_numbering=True, rng=None, apply_exemptions=True):
+    """All clauses of C06 evaluated on the real code for one wire-encoded molecule. Returns list of (clause, detail).
+    With `apply_exemptions` the clauses that the property text / the known finding exclude for the graph's class are dropped."""
     from chython.exceptions import ImplementationError
     mol, _ = wire.ints_to_mol(ints)
     adj = ns_adj(mol)
     full = {n: set(ms) for n, ms in mol._bonds.items()}
-    gap = recorded_gap(adj)
+    gap = gap_class(adj) if apply_exemptions else None
     out = []
+
+    def add(clause, detail):
+        if not exempt(gap, clause):
+            out.append((clause, detail))
     sizes_ref, mu = mcb_sizes(adj)
     if mol.rings_count != mu:
-        out.append(('rings-count', f'rings_count={mol.rings_count}, bonds-atoms+components={mu}'))
+        add('rings-count', f'rings_count={mol.rings_count}, bonds-atoms+components={mu} (coordinate bonds ignored)')
     cc = sorted(sorted(c) for c in mol.connected_components)
     if cc != sorted(sorted(c) for c in components(full)):
-        out.append(('connected-components', f'connected_components={cc}'))
+        add('connected-components', f'connected_components={cc}')
     core2 = two_core(full)
     sk = mol.skin_graph
     if {n: set(ms) for n, ms in sk.items()} != core2:
-        out.append(('skin-graph', f'skin_graph={sk} but the 2-core is {core2}'))
+        add('skin-graph', f'skin_graph={sk} but the 2-core is {core2}')
     try:
         rings = [tuple(r) for r in mol.sssr]
     except ImplementationError as e:
-        if gap is None:
-            out.append(('sssr-raises', f'ImplementationError({e})'))
+        add('sssr-raises', f'ImplementationError({e})')
         return out
     except Exception as e:
         out.append(('sssr-crashes', type(e).__name__))
         return out
-    for d in basis_defects(adj, rings):
-        if not (gap and d in ('count', 'dependent')):
-            out.append(('basis-' + d, f'sssr={rings}'))
+    defects = basis_defects(adj, rings)
+    for d in defects:
+        add('basis-' + d, f'sssr={rings}')
     sizes = sorted(len(r) for r in rings)
-    if not out and sizes != sizes_ref and gap is None:
-        out.append(('not-minimum', f'sssr sizes {sizes}, a minimum cycle basis has {sizes_ref}'))
+    if not defects and sizes != sizes_ref:
+        add('not-minimum', f'sssr ring sizes {sizes}, a minimum cycle basis has {sizes_ref}')
     # views and marks
     ar = collections.defaultdict(list)
     for r in rings:
         for n in r:
             ar[n].append(r)
     if {n: [tuple(r) for r in rs] for n, rs in mol.atoms_rings.items()} != dict(ar):
-        out.append(('atoms-rings', f'atoms_rings={mol.atoms_rings}'))
+        add('atoms-rings', f'atoms_rings={mol.atoms_rings}')
     if mol.atoms_rings_sizes != {n: {len(r) for r in rs} for n, rs in ar.items()}:
-        out.append(('atoms-rings-sizes', f'atoms_rings_sizes={mol.atoms_rings_sizes}'))
+        add('atoms-rings-sizes', f'atoms_rings_sizes={mol.atoms_rings_sizes}')
     mol.calc_labels()
     for n, ms in mol._bonds.items():
         a = mol._atoms[n]
         if bool(a._in_ring) != (n in ar) or set(a._ring_sizes) != {len(r) for r in ar.get(n, ())}:
-            out.append(('atom-marks', f'atom {n}: in_ring={a._in_ring} ring_sizes={a._ring_sizes}, rings through it {ar.get(n)}'))
+            add('atom-marks', f'atom {n}: in_ring={a._in_ring} ring_sizes={a._ring_sizes}, rings through it {ar.get(n)}')
             break
-        for m, b in ms.items():
-            if bool(b._in_ring) != bool(set(ar.get(n, ())) & set(ar.get(m, ()))):
-                out.append(('bond-marks', f'bond {n}-{m}: in_ring={b._in_ring}'))
-                break
-    if check_numbering and rng is not None and gap is None and not out:
+        bad = [(m, b) for m, b in ms.items() if bool(b._in_ring) != bool(set(ar.get(n, ())) & set(ar.get(m, ())))]
+        if bad:
+            add('bond-marks', f'bond {n}-{bad[0][0]}: in_ring={bad[0][1]._in_ring}, rings {ar.get(n)} / {ar.get(bad[0][0])}')
+            break
+    if check_numbering and rng is not None and not out:
         for _ in range(3):
             m2, _ = wire.ints_to_mol(renumbered_ints(rng, ints))
             try:
                 s2 = sorted(len(r) for r in m2.sssr)
             except Exception as e:
-                out.append(('numbering-dependent', f'renumbered copy raises {type(e).__name__}'))
+                add('numbering-dependent', f'renumbered copy raises {type(e).__name__}')
                 break
             if s2 != sizes:
-                out.append(('numbering-dependent', f'ring sizes {sizes} vs {s2} after renumbering'))
+                add('numbering-dependent', f'ring sizes {sizes} vs {s2} after renumbering')
                 break
     return out
 
 
-def shrink(ints, clause):
+def build_ints(atoms, edges):
+    nb = {v: [] for v in atoms}
+    for a, b, o in edges:
+        nb[a].append((b, o))
+        nb[b].append((a, o))
+    out = [len(atoms)]
+    for v in atoms:
+        out += [v, 6, 0, 0, 0, -1, -1, len(nb[v])]
+        for m, o in nb[v]:
+            out += [m, o, -1]
+    return out
+
+
+def shrink(ints, clause, apply_exemptions=True):
     """delete atoms / bonds while the same clause still fails"""
     mol, _ = wire.ints_to_mol(ints)
     atoms = list(mol._atoms)
     edges = [(n, m, int(b)) for n, ms in mol._bonds.items() for m, b in ms.items() if n < m]
 
-    def build(atoms, edges):
-        nb = {v: [] for v in atoms}
-        for a, b, o in edges:
-            nb[a].append((b, o))
-            nb[b].append((a, o))
-        out = [len(atoms)]
-        for v in atoms:
-            out += [v, 6, 0, 0, 0, -1, -1, len(nb[v])]
-            for m, o in nb[v]:
-                out += [m, o, -1]
-        return out
-
     def fails(x):
         try:
-            return any(c == clause for c, _ in property_failures(x, check_numbering=False))
+            return any(c == clause for c, _ in property_failures(x, check_numbering=False, apply_exemptions=apply_exemptions))
         except Exception:
             return False
-    cur = build(atoms, edges)
-    if not fails(cur):
+    if not fails(build_ints(atoms, edges)):
         return ints
     changed = True
     while changed:
@@ -671,13 +868,13 @@ def shrink(ints, clause):
         for v in list(atoms):
             a2 = [x for x in atoms if x != v]
             e2 = [e for e in edges if v not in e[:2]]
-            if a2 and fails(build(a2, e2)):
+            if a2 and fails(build_ints(a2, e2)):
                 atoms, edges, changed = a2, e2, True
         for e in list(edges):
             e2 = [x for x in edges if x != e]
-            if fails(build(atoms, e2)):
+            if fails(build_ints(atoms, e2)):
                 edges, changed = e2, True
-    return build(atoms, edges)
+    return build_ints(atoms, edges)
 
 
 def search(ctx):
@@ -696,10 +893,10 @@ def search(ctx):
             if clause in seen_sig:
                 continue
             seen_sig.add(clause)
-            small = shrink(ints, clause)
+            small = shrink(ints, clause) if clause != 'numbering-dependent' else ints
             det = next((d for c, d in property_failures(small, check_numbering=clause == 'numbering-dependent', rng=rng)
                         if c == clause), detail)
-            ctx.fail(f'C06/{clause}', f'{clause}: {det}', {'wire': small})
+            ctx.fail(f'C06/{clause}', f'{clause}: {det}', {'wire': small, 'clause': clause})
         return bool(fl)
 
     # 1. the disagreeing cases and renumberings of them
@@ -727,7 +924,9 @@ def search(ctx):
 
 def probe(inp):
     import random
-    fl = property_failures(inp['wire'], rng=random.Random(0))
+    exemptions = not inp.get('ignore_exemptions', False)
+    fl = property_failures(inp['wire'], rng=random.Random(0), apply_exemptions=exemptions,
+                           check_numbering=inp.get('clause') in (None, 'numbering-dependent'))
     want = inp.get('clause')
     if want:
         fl = [x for x in fl if x[0] == want]
